@@ -313,6 +313,39 @@ template <sz N> void fill_from_grid()
   verif_assert(!used_after_move, "fill: no moved-from cell was used");
   verif_reach("end");
 }
+
+// assignment history: the storage holds exactly content() cells, one per in-range position, after every step - copy
+// assignment, move assignment from another grid, swap, and move assignment whose right-hand side is (an alias of) the
+// target itself, as in  slots[i] = std::move(slots[j])  with i == j.  A standard-library type would only promise a
+// "valid but unspecified" state for the last one; a grid whose size() and storage disagree is not a valid state, so the
+// assertion after the self-move is: size() and the number of stored cells agree, and every stored cell is addressable
+// through at_optional.
+template <sz N> void assign_history()
+{
+  used_after_move = false;
+  arr<N> const s1{params<N>(n_w)}, s2{params<N>(n_w2)};
+  G<N> a{make<N>(1, s1)}, b{make<N>(2, s2)};
+  G<N> c{make<N>(2, s2)};
+  c = a; // copy assignment
+  check_intact<N>(c, 1, s1, "copy assignment: the target has the size and cells of the source");
+  check_intact<N>(a, 1, s1, "copy assignment: the source is unchanged");
+  c = std::move(b); // move assignment from another grid
+  check_intact<N>(c, 2, s2, "move assignment: the target has the size and cells of the source");
+  std::swap(a, c);
+  check_intact<N>(a, 2, s2, "swap (1)");
+  check_intact<N>(c, 1, s1, "swap (2)");
+  G<N> *const alias{&a};
+  a = std::move(*alias); // self move assignment through an alias
+  sz const stored{static_cast<sz>(std::distance(a.begin(), a.end()))};
+  verif_assert(stored == a.content(), "self move assignment: size() and the stored cells still agree (offset maps the in-range positions onto the storage)");
+  sz count{0};
+  for (sz k = 0; k < cells(s2) && eq(un_dim<N>(a.size()), s2); ++k)
+  {
+    if (grid::at_optional(a, mk_pos<N>(kth(s2, k))).has_value()) ++count;
+  }
+  verif_assert(!eq(un_dim<N>(a.size()), s2) || count == cells(s2), "self move assignment: at_optional yields an element for every in-range position");
+  verif_reach("end");
+}
 }
 
 #define H(name, ...) VERIF_HARNESS(name) { __VA_ARGS__; }
@@ -331,3 +364,7 @@ H(h_mv_apply_1, apply_by_value<1>()) H(h_mv_apply_2, apply_by_value<2>())
 H(h_mv_fill_1, fill_from_grid<1>()) H(h_mv_fill_2, fill_from_grid<2>())
 //@harness h_mv_fill_1 param w=0..4 tier=quick loop=80 hang_s=60
 //@harness h_mv_fill_2 param w=0..3 param h=0..3 tier=quick loop=80 hang_s=60
+
+H(h_mv_assign_1, assign_history<1>()) H(h_mv_assign_2, assign_history<2>())
+//@harness h_mv_assign_1 param w=0..3 param w2=0..3 tier=quick loop=80 hang_s=60
+//@harness h_mv_assign_2 param w=0..2 param h=0..2 param w2=1..2 param h2=1..2 tier=quick loop=80 hang_s=60
